@@ -402,9 +402,10 @@ async fn run(lines: Vec<String>, prop: String, out: &mut Out) {
 					c.ws = Some(c.env.ws().await);
 				}
 				let peer = c.ws.as_mut().unwrap();
-				peer.send(&data, false).await;
+				let sent_ok = peer.send(&data, false).await;
 				quiesce().await;
 				let frames = peer.take();
+				let conn_lost = !sent_ok || peer.is_closed();
 				let inv = c.env.take_log();
 				let mut wpart = format!("w:{}", frames.len());
 				for f in &frames {
@@ -487,6 +488,12 @@ async fn run(lines: Vec<String>, prop: String, out: &mut Out) {
 				let o = if utf8 { o } else { format!("#skip {o}") };
 				out.count(if utf8 { "msg.utf8" } else { "msg.non_utf8" });
 				let nontrivial = !frames.is_empty();
+				// the connection must keep serving: a connection the server closed is a failure of this line, and the
+				// next line gets a fresh connection (the harness goes on instead of crashing)
+				let orc = if conn_lost && orc.is_ok() { Err("the server closed the WebSocket connection on this message (later messages cannot be served)".to_string()) } else { orc };
+				if conn_lost {
+					case.as_mut().unwrap().ws = None;
+				}
 				out.line(line.clone(), o, orc, nontrivial);
 			}
 			"burst" => {
@@ -501,7 +508,7 @@ async fn run(lines: Vec<String>, prop: String, out: &mut Out) {
 				let mut peer = env.ws_opts(dup, true).await;
 				let mut released = false;
 				for m in &msgs {
-					if tokio::time::timeout(std::time::Duration::from_secs(1), peer.send(m, false)).await.is_err() {
+					if !matches!(tokio::time::timeout(std::time::Duration::from_secs(1), peer.send(m, false)).await, Ok(true)) {
 						// the server stopped reading until the peer drains: let the peer read
 						if !released {
 							peer.release();
